@@ -37,6 +37,10 @@ class Contract:
                     self.attrs[item.targets[0].id] = item.value
         self.raises = tuple(self.attrs.get('raises', ()))
         self.variants = self.attrs.get('variants')
+        # type_variants = [{'param': 'type', ...}, ...]: the function is verified once per entry, the entry overriding
+        # `types` (a parameter whose run-time type is not fixed by the caller, e.g. Union[str, int] XML-RPC parameters);
+        # the value 'class:Name' binds the parameter to the class object Name
+        self.type_variants = self.attrs.get('type_variants')
         self.inline = set(self.attrs.get('inline', ()))
         self.types = self.attrs.get('types', {})
         self.returns = self.attrs.get('returns')
@@ -44,6 +48,18 @@ class Contract:
         self.assumed = bool(self.attrs.get('assumed', kind == 'external'))
         self.exact = self.attrs.get('exact', False)
         self.pure = bool(self.attrs.get('pure', False))
+
+    def all_variants(self):
+        """variant labels to verify: '<Class>' (exact class of self), '<Class>#<k>:<types>' / '#<k>:<types>' (k-th entry
+        of type_variants; the text after ':' is informational), or None"""
+        out = []
+        for v in (self.variants or [None]):
+            if self.type_variants:
+                for k, tv in enumerate(self.type_variants):
+                    out.append(f"{v or ''}#{k}:" + ','.join(f'{a}={t}' for a, t in tv.items()))
+            else:
+                out.append(v)
+        return out
 
     def __repr__(self):
         return f'<Contract {self.target}>'
